@@ -48,6 +48,13 @@ static _Bool verif_feq(double a, double b) {
   double d = a - b; if (d < 0) d = -d; return d <= 1e-9;
 #endif
 }
+static _Bool verif_native(void) {
+#ifdef __CPROVER__
+  return 0;
+#else
+  return 1;
+#endif
+}
 static void verif_reach(void) {
 #ifdef WITNESS
   __CPROVER_assert(0, "witness-reach");
